@@ -54,8 +54,11 @@ Theorem C17_fast_fill_generic :
     (forall a, 0 <= vrd a < 256) -> 0 <= dictSize -> 0 <= inputSize -> 1 <= olim ->
     forall L, L <= startIndex ->
     (dd = CUsingDictCtx -> forall h, get dtable h + dictDelta < startIndex /\
-                                     good tt dd dictSmall startIndex dictSize (get dtable h + dictDelta)) ->
+                                     good3 tt dd dictSmall startIndex dictSize (get dtable h + dictDelta)) ->
     (dist_active tt = false -> startIndex + inputSize - MFLIMIT - hist_lo dd startIndex dictSize <= 65535) ->
+    0 <= startIndex ->
+    (tt = ByU16 -> mflimitPlusOne startIndex inputSize <= 65536
+                   \/ (dictSmall = true /\ 65536 <= startIndex - dictSize /\ L <= 0)) ->
     1 <= acceleration ->
     forall tab,
     tab_ok tt dd dictSmall startIndex dictSize L (startIndex + 1) tab ->
